@@ -323,6 +323,19 @@ func (s *Solvers) SolveCached(q string) (solverResult, bool) {
 // undecided is retried one by one on the fallback solvers. Process creation is the bottleneck
 // in this sandbox (~20 ms each, serialised), hence the batching.
 func (s *Solvers) SolveBatch(queries []string) []solverResult {
+	first := int(s.timeout.Seconds())
+	if first > 3 {
+		first = 3
+	}
+	return s.solveBatch(queries, first, true)
+}
+
+// SolveProbes is SolveBatch for vacuity probes: short timeout, no fallback ("unknown" is as good as "sat").
+func (s *Solvers) SolveProbes(queries []string) []solverResult {
+	return s.solveBatch(queries, 2, false)
+}
+
+func (s *Solvers) solveBatch(queries []string, secs int, fallback bool) []solverResult {
 	type uq struct {
 		text string
 		idxs []int
@@ -362,7 +375,6 @@ func (s *Solvers) SolveBatch(queries []string) []solverResult {
 	}
 	var wg sync.WaitGroup
 	sem := make(chan struct{}, 16)
-	secs := int(s.timeout.Seconds())
 	for _, b := range batches {
 		wg.Add(1)
 		go func(b []*uq) {
@@ -419,7 +431,7 @@ func (s *Solvers) SolveBatch(queries []string) []solverResult {
 	wg.Wait()
 	// fallback for the undecided ones
 	for _, u := range uniq {
-		if u.res.Result != "unknown" {
+		if u.res.Result != "unknown" || !fallback {
 			continue
 		}
 		wg.Add(1)
@@ -434,7 +446,7 @@ func (s *Solvers) SolveBatch(queries []string) []solverResult {
 			s.mu.Unlock()
 			os.WriteFile(file, []byte(text), 0o644)
 			defer os.Remove(file)
-			for _, idx := range []int{1, 2} {
+			for _, idx := range []int{1, 0, 2} {
 				r := s.runOne(idx, file)
 				if r.Result != "unknown" {
 					r.Time += u.res.Time
